@@ -243,3 +243,34 @@ func conjExpr(es []*SExpr) *SExpr {
 	}
 	return e
 }
+
+// specSig is a textual signature of a contract (to detect conflicting duplicate ext/iface declarations).
+func specSig(s *FnSpec) string {
+	var b strings.Builder
+	for _, r := range s.Requires {
+		b.WriteString("R:" + r.Src + ";")
+	}
+	for _, e := range s.Ensures {
+		b.WriteString("E:" + e.Src + ";")
+	}
+	for _, a := range s.Assigns {
+		b.WriteString("A:" + a.String() + ";")
+	}
+	if s.Panics != nil {
+		b.WriteString("P:" + s.Panics.String())
+	}
+	b.WriteString(strings.Join(s.Params, ","))
+	if s.Trusted {
+		b.WriteString("T")
+	}
+	if s.Pure {
+		b.WriteString("U")
+	}
+	if s.AssignsSet {
+		b.WriteString("S")
+	}
+	if s.PanicsAny {
+		b.WriteString("Y")
+	}
+	return b.String()
+}
